@@ -100,3 +100,23 @@ Example C20_atomic_example :
   crash_view (fun _ => 1) (Some [[1%N]]) [[2%N]; [3%N]] 4 = Some [[1%N]]
   /\ crash_view (fun _ => 1) (Some [[1%N]]) [[2%N]; [3%N]] 6 = Some [[2%N]; [3%N]].
 Proof. split; vm_compute; reflexivity. Qed.
+
+(* ---- a temporary file left behind by a killed export ----
+   the model's first step truncates the temporary file; that is what the source does
+   (File::create), regenerated as a fact: *)
+From Aquatic Require Import Consts.
+Theorem C20_tmp_file_is_created_truncating : udp_export_tmp_created_truncating = true.
+Proof. reflexivity. Qed.
+Print Assumptions C20_tmp_file_is_created_truncating.
+
+(* hence whatever an earlier, killed export left in the temporary file - any lines, any length -
+   the atomicity statement is unchanged: old complete file or new complete file *)
+Theorem C20_atomic_with_stale_tmp : forall spills old stale lines k,
+  let view := f_path (fs_run spills 0 (mkFs old stale []) (firstn k (export_steps lines))) in
+  view = old \/ view = Some lines.
+Proof.
+  intros spills old stale lines k. destruct k as [|k]; [left; reflexivity|].
+  pose proof (C20_atomic spills old lines (S k)) as H. unfold crash_view in H.
+  cbn [export_steps firstn fs_run fs_step] in *. exact H.
+Qed.
+Print Assumptions C20_atomic_with_stale_tmp.
